@@ -847,6 +847,32 @@ func drawCoeffs(r *ring.Ring, u ring.Sampler, t int) []ring.Poly {
 	return gen
 }
 
+// POLYOUT control: Horner evaluation that starts from what the output holds
+func hornerInto(r *ring.Ring, pol []ring.Poly, pt uint64, p3 ring.Poly) {
+	for i := len(pol) - 1; i >= 0; i-- {
+		r.MulScalar(p3, pt, p3)
+		r.Add(p3, pol[i], p3)
+	}
+}
+
+// MARGINMAX control: the margin of the last prime only
+type marginParams struct{ qi []uint64 }
+
+func (p marginParams) QOverflowMargin(level int) int {
+	return int(math.Exp2(64) / float64(p.qi[level]))
+}
+
+// STRIDEGRID control: the second half is walked from slots, off the grid for sparse packing
+func readHalves(coeffs []uint64, re, im []uint64, maxCols, slots int) {
+	gap := maxCols / slots
+	for i, idx := 0, 0; i < slots; i, idx = i+1, idx+gap {
+		re[i] = coeffs[idx]
+	}
+	for i, idx := 0, slots; i < slots; i, idx = i+1, idx+gap {
+		im[i] = coeffs[idx]
+	}
+}
+
 // INDEG control: the first two components of the input, whatever its degree
 func (e fixEvaluator) SumTwo(ctIn, opOut *rlwe.Ciphertext) {
 	e.r.Add(ctIn.Value[0], ctIn.Value[1], opOut.Value[0])
